@@ -140,3 +140,16 @@ Definition multi_primary (fs : list filter) (attrs : list bytes) : bool :=
   end.
 Definition multi_primary_cases (cs : list scase) : list nat :=
   mism_from (fun c => negb (multi_primary (s_filters c) (s_attrs c))) 0 cs.
+
+(* second known class: COMMON_PREFIX on a base58-typed primary attribute
+   (owner, parent, first part, associate): the seek key is the decoded prefix
+   text, which is not a prefix of the stored bytes *)
+Definition b58_prefix_primary (fs : list filter) (attrs : list bytes) : bool :=
+  match fs, attrs with
+  | f0 :: _, _ :: _ =>
+    matcher_eqb (fst (convert_filter f0)) M_PREFIX
+    && match class_of (f_key f0) with C_OWNER | C_OID => true | _ => false end
+  | _, _ => false
+  end.
+Definition b58_prefix_cases (cs : list scase) : list nat :=
+  mism_from (fun c => negb (b58_prefix_primary (s_filters c) (s_attrs c))) 0 cs.
